@@ -162,6 +162,8 @@ def probes(r, fmt, tier):
     for n in [101, 155, 197, 256, 257, 300, 1000]:
         P.append(("pathname", "deep%d" % n, X(path=deep(n)), False))
     P.append(("pathname", "with-space", X(path=b"a b.txt"), False))
+    # ustar splits this 103-byte name behind its second '/': prefix "a/", name 100 x 'b'
+    P.append(("pathname", "dslash-split", X(path=b"a//" + b"b" * 100), False))
     P.append(("pathname", "empty", X(path=b""), False))
     P.append(("pathname", "unset", X(path=None), False))
     for n in [99, 100, 101, 1000, 65535, 65536]:
@@ -312,6 +314,8 @@ def value_class(fmt, field, sup, meta):
         return "overflow"
     if field == "filetype" and meta["desc"] == "none":
         return "none"
+    if field == "pathname" and meta["desc"] == "dslash-split":
+        return "dslash-split"
     return None
 
 def field_key(fmt, field, sup, meta):
